@@ -76,6 +76,7 @@ type skylightCase struct {
 	Host    string `json:"host"`
 	Target  string `json:"target"` // raw request target
 	Layout  string `json:"layout,omitempty"`
+	Range   string `json:"range,omitempty"` // Range header of a partial-content request (oracle only)
 }
 
 type skylightResp struct {
@@ -325,13 +326,18 @@ func skylightBinary(name string) string {
 
 // get sends one raw GET request (nothing is normalised on the way).
 func (w *skylightWorld) get(host, target string) (*skylightResp, error) {
+	return w.getH(host, target, "")
+}
+
+// getH: extra is zero or more complete header lines ("Range: bytes=0-3\r\n")
+func (w *skylightWorld) getH(host, target, extra string) (*skylightResp, error) {
 	c, err := net.DialTimeout("tcp", w.addr, 3*time.Second)
 	if err != nil {
 		return nil, err
 	}
 	defer c.Close()
 	c.SetDeadline(time.Now().Add(10 * time.Second))
-	fmt.Fprintf(c, "GET %s HTTP/1.1\r\nHost: %s\r\nUser-Agent: verif-harness (verif@test.invalid)\r\nConnection: close\r\n\r\n", target, host)
+	fmt.Fprintf(c, "GET %s HTTP/1.1\r\nHost: %s\r\nUser-Agent: verif-harness (verif@test.invalid)\r\nConnection: close\r\n%s\r\n", target, host, extra)
 	resp, err := http.ReadResponse(bufio.NewReader(c), nil)
 	if err != nil {
 		return nil, err
@@ -443,6 +449,52 @@ func (w *skylightWorld) request(variant int, host, target string, layout *skylig
 			}
 			st.Count("layout-ok")
 		}
+	}
+	return fails
+}
+
+// rangeRequest: a successful partial-content answer (206) for a layout URL is a successful layout response too: it must
+// carry the same content type, content-encoding and cache policy, and its body must be that byte range of the file.
+func (w *skylightWorld) rangeRequest(variant int, e *skylightEntry, target, rel, rng string, st *Stats) (fails []OracleFailure) {
+	cs := &skylightCase{Variant: variant, Host: e.host, Target: target, Layout: rel, Range: rng}
+	fail := func(sig, format string, a ...any) {
+		fails = append(fails, OracleFailure{Property: "C19", Signature: sig, Detail: fmt.Sprintf(format, a...), Case: cs})
+	}
+	data, err := os.ReadFile(filepath.Join(e.dir, filepath.FromSlash(rel)))
+	if err != nil || len(data) < 4 {
+		return nil
+	}
+	var lo, hi int
+	switch rng {
+	case "bytes=0-0":
+		lo, hi = 0, 1
+	case "bytes=1-2":
+		lo, hi = 1, 3
+	case "bytes=-2":
+		lo, hi = len(data)-2, len(data)
+	default:
+		return nil
+	}
+	r, err := w.getH(e.host, target, "Range: "+rng+"\r\n")
+	if err != nil {
+		st.Count("range:refused")
+		return nil
+	}
+	st.Count(fmt.Sprintf("range:%d", r.status))
+	switch r.status {
+	case 206:
+		if !bytes.Equal(r.body, data[lo:hi]) {
+			fail("layout-wrong-body:range", "GET %s Range %s (Host %s): 206 body %x is not that range of the file %s", target, rng, e.host, r.body, rel)
+		}
+	case 200:
+		if !bytes.Equal(r.body, data) {
+			fail("layout-wrong-body:range", "GET %s Range %s (Host %s): 200 body differs from the file %s", target, rng, e.host, rel)
+		}
+	default:
+		return nil
+	}
+	if msg := skylightHeaderOracle(rel, r); msg != "" {
+		fail("layout-wrong-headers:range", "GET %s Range %s (Host %s) answered %d: %s", target, rng, e.host, r.status, msg)
 	}
 	return fails
 }
@@ -724,6 +776,11 @@ func skylightRunVariant(d *skylightDirs, base string, variant int, o *Opts, tr *
 			}
 		}
 		st.Eval("replay", true)
+		if only.Range != "" && le != nil {
+			fs := w.rangeRequest(variant, le, only.Target, only.Layout, only.Range, st)
+			tr.Line("endcfg %d", variant)
+			return fs
+		}
 		fs := w.request(variant, only.Host, only.Target, le, only.Layout, 1, tr, st)
 		tr.Line("endcfg %d", variant)
 		return fs
@@ -747,6 +804,9 @@ func skylightRunVariant(d *skylightDirs, base string, variant int, o *Opts, tr *
 			st.Eval(fmt.Sprintf("%d|%s|%s", variant, e.host, url), true)
 			if isLayout {
 				st.Count("layout:" + e.kind)
+				// partial-content requests (a client resuming a download): first byte, an inner range, a suffix
+				rng := []string{"bytes=0-0", "bytes=1-2", "bytes=-2"}[id%3]
+				fails = append(fails, w.rangeRequest(variant, e, url, rel, rng, st)...)
 			}
 		}
 		// (ii) hostile targets
